@@ -52,7 +52,7 @@ def bounds(tier):
 
 
 def high_order_shapes(tier, seed):
-    """orders 6-10 with mode sizes 1-2 (one mode may have 3): beyond the exhaustive bound, sampled splits only"""
+    """orders 6-24 with mode sizes 1-2 (one mode may have 3): beyond the exhaustive bound, sampled splits only"""
     rs = np.random.RandomState(777 + seed)
     out = []
     for o in range(6, 11):
@@ -60,6 +60,13 @@ def high_order_shapes(tier, seed):
             sh = [int(rs.randint(1, 3)) for _ in range(o)]
             if rs.rand() < 0.3:
                 sh[int(rs.randint(o))] = 3
+            out.append(sh)
+    # very high orders (quantised-tensor style): mostly singleton modes so that the number of entries stays small
+    for o in (12, 16, 17, 18, 20, 24):
+        for _ in range(2 if tier == "quick" else 6):
+            sh = [1] * o
+            for i_ in rs.choice(o, size=int(rs.randint(6, 11)), replace=False):
+                sh[int(i_)] = 2
             out.append(sh)
     return out
 
@@ -72,6 +79,10 @@ def plan(tier, seed):
     for sh in high_order_shapes(tier, seed):
         for dt in (DTYPES[-3], DTYPES[1]):
             cases.append({"gen": "high_order", "shape": sh, "dtype": dt, "seed": seed})
+    # results handed out earlier stay what they were when later calls are made (no shared work buffers), also for tensors of a
+    # million entries and more
+    for sh in [[64, 128, 128], [128, 96, 96], [3, 4, 5]] + ([[32, 33, 32, 33]] if tier != "quick" else []):
+        cases.append({"gen": "retained", "shape": sh, "dtype": "float64", "seed": seed})
     # deterministic shuffle so that shards are balanced
     rs = np.random.RandomState(12345)
     rs.shuffle(cases)
@@ -218,7 +229,41 @@ def _same(a, b):
     return np.ascontiguousarray(a).tobytes() == np.ascontiguousarray(b).tobytes()
 
 
+def run_retained(case, ctx):
+    import tensorly as tl
+    from tensorly import base as B
+    shape = list(case["shape"])
+    nd = len(shape)
+    n = prod(shape)
+    rs = np.random.RandomState(case["seed"] + n)
+    Xs = [rs.standard_normal(shape) for _ in range(3)]
+    ops = [("unfold", lambda T, m: tl.unfold(T, m), lambda m: E_unfold(shape, m))]
+    ops.append(("partial_unfold", lambda T, m: B.partial_unfold(T, m, skip_begin=0, skip_end=0), lambda m: E_unfold(shape, m)))
+    for name, fn, Efn in ops:
+        for mode in range(nd):
+            E = Efn(mode)
+            kept = []
+            for X in Xs:
+                out = fn(X, mode)
+                kept.append((out, X.ravel()[E]))
+            ctx.count("calls/%s_retained" % name, len(kept))
+            for j, (out, want) in enumerate(kept):
+                if not _same(out, want):
+                    ctx.violation("C01:%s:earlier-result-overwritten" % name, "%s(mode=%d) of tensor #%d (shape %s, %d entries) no longer holds that tensor's entries after %d later call(s) on other "
+                                  "tensors of the same shape" % (name, mode, j, shape, n, len(kept) - 1 - j), {"shape": shape, "mode": mode})
+                    return
+    rows = list(range(1, nd))
+    kept = [(B.matricize(X, rows), X.transpose(rows + [0]).reshape(-1, shape[0])) for X in Xs]
+    for j, (out, want) in enumerate(kept):
+        if not _same(out, want):
+            ctx.violation("C01:matricize:earlier-result-overwritten", "matricize result #%d (shape %s) changed after later calls" % (j, shape), {"shape": shape})
+            return
+    ctx.nontriv_count(1)
+
+
 def run_case(case, ctx):
+    if case.get("gen") == "retained":
+        return run_retained(case, ctx)
     import tensorly as tl
     from tensorly import base as B
 
@@ -284,7 +329,8 @@ def run_case(case, ctx):
                     T[...] = A
             if inv is not None:
                 # fold applied to an independently constructed unfolding, in several layouts
-                for kind, U in layouts(expected, ("C", "F", "strided", "readonly")):
+                # (the strided layout embeds the array in one with 2s+1 entries per mode: not for orders beyond the exhaustive bound)
+                for kind, U in layouts(expected, ("C", "F", "strided", "readonly") if not high else ("C", "F", "readonly")):
                     back = inv[1](U)
                     ctx.count("calls/" + inv[0])
                     if not _same(back, A):
@@ -302,12 +348,17 @@ def run_case(case, ctx):
         check("unfold", {"mode": mode}, lambda T, mode=mode: tl.unfold(T, mode), E,
               ("fold", lambda U, mode=mode: tl.fold(U, mode, tuple(shape))))
     # partial unfold / fold / vec
-    for sb in range(nd):
-        for se in range(nd - sb):
+    skip_pairs = [(sb, se) for sb in range(nd) for se in range(nd - sb)]
+    if high and nd > 8:
+        # O(order^3) splits: a sample is enough beyond the exhaustive bound
+        skip_pairs = [skip_pairs[int(i_)] for i_ in hrs.choice(len(skip_pairs), size=12, replace=False)]
+    for sb, se in skip_pairs:
+        if True:
             nmid = nd - sb - se
             if nmid < 1:
                 continue
-            for mode in range(nmid):
+            mid_modes = list(range(nmid)) if not (high and nd > 8) else sorted(set(int(i_) for i_ in hrs.randint(0, nmid, size=3)))
+            for mode in mid_modes:
                 for ravel in (False, True):
                     E = E_partial_unfold(shape, mode, sb, se, ravel)
                     params = {"mode": mode, "skip_begin": sb, "skip_end": se, "ravel_tensors": ravel}
